@@ -11,6 +11,9 @@ CONSTANTS
   Sym = TRUE
   NCallers = 0
   Removal = "skip"
+  MaxTwice = 0
+  SetRace = "unlocked"
+  Pick = 0
   Emit = "terminal"
 INVARIANTS TypeOK Gone R0ok R1ok R2ok R3ok R4ok R6ok
 CHECK_DEADLOCK FALSE
